@@ -342,13 +342,25 @@ def c05Resolve (defs : List C05Defines) (attr : String) : List String → Option
     | some f => some f
     | none => c05Resolve defs attr rest
 
-/-- a subclass `__call__` that only hands over to another class's `__call__` -/
+/-- a subclass `__call__` that only hands over to another class's `__call__`:
+`def __call__(self, expr, P=DEFAULT, …, *args, **kwargs): return Target.__call__(…)` -/
 structure C05CallOverride where
   cls : String
-  /-- `Target.__call__` -/
+  /-- the function the override is (`module.Class.__call__`) -/
+  fn : String
+  /-- `Target.__call__` as written … -/
   target : String
+  /-- … and the function that expression names in the override's module -/
+  targetFn : String
   /-- the instance is passed as first argument (`Target.__call__(self, expr, …)`) -/
   passesSelf : Bool
+  /-- parameters the override declares between `expr` and `*args`, with the source text of their
+  defaults (`("prec", "PREC_NONE")`): they become leading positional arguments of the target -/
+  extraParams : List (String × String)
+  /-- after the optional instance the call passes `expr`, then exactly the extra parameters in
+  declaration order, then `*args` and `**kwargs` as far as the override takes them — nothing else,
+  nothing dropped -/
+  forwardsAll : Bool
   deriving Repr, DecidableEq, Inhabited
 
 /-- how a cache dictionary comes into being -/
